@@ -87,3 +87,29 @@ package internal
 //@ func internal.verifHrefRoundTrip(p) (r, err)
 //@   requires R1: hasPrefix(p, "/") && !hasPrefix(p, "//")
 //@   ensures RT: err == nil && r == p
+
+//@ -- ---------------------------------------------------------------------------------------
+//@ -- Server plumbing shared by the three handlers (C13, C11, C09, C08, C12)
+//@ spec validReq(r *http.Request) bool = r != nil && r.URL != nil && r.Body != nil
+//@ spec wstatus(w http.ResponseWriter) int = rsGet(rstatus, w)
+//@ -- errors a handler may pass on: made by the backend, by the environment (response writer / encoder),
+//@ -- or a 4xx built by the library itself
+//@ spec okErr(e error) bool = fromBackend(e) || fromEnv(e) || (400 <= httpCode(e) && httpCode(e) < 500)
+//@ func internal.DecodeXMLRequest(r, v) (err)
+//@   requires R1: validReq(r)
+//@   decodes v
+//@   ensures D1: err != nil ==> httpCode(err) == 400
+//@ func internal.ServeMultiStatus(w, ms) (err)
+//@   requires R1: w != nil && wstatus(w) == 0
+//@   ensures S1: wstatus(w) == 207
+//@   ensures S2: err != nil ==> fromEnv(err)
+//@ -- Prop.Decode is reflection plus the XML token decoder: assumed (T-xml). A missing element is a 404.
+//@ func internal.(*Prop).Decode(p, v) (err)
+//@   trusted T-xml
+//@   requires R1: p != nil
+//@   decodes v
+//@   ensures P1: err != nil ==> (httpCode(err) == 404 || httpCode(err) == -1) && !hostPath(err)
+//@ func internal.IsNotFound(err) (r)
+//@   ensures N1: r <==> httpCode(err) == 404
+//@ func internal.NewMultiStatus(resps) (ms)
+//@   ensures M1: ms != nil && fresh(ms) && ms.Responses == resps
